@@ -654,6 +654,17 @@ func c18Unbound(s string) string {
 func c18Origins(v ssa.Value, fr *nfFrame) []nfOriginF {
 	os := nfOriginsF(v, fr)
 	for i := range os {
+		// a field read through a local alias / a captured variable of the entry
+		// is the field of the value the variable holds
+		if os[i].Kind == "field" {
+			if ld, ok := os[i].Val.(*ssa.UnOp); ok {
+				if fa, ok := ld.X.(*ssa.FieldAddr); ok {
+					if d := c18FieldPath(fa, os[i].Fr); d != "" {
+						os[i].Desc = d
+					}
+				}
+			}
+		}
 		os[i].Desc = c18Unbound(os[i].Desc)
 		// a field of a struct variable read inside a closure that captured the
 		// variable (^te.ID) is the field of that variable (&te.ID)
@@ -952,4 +963,28 @@ func c18Step(v ssa.Value, fr *nfFrame) (ssa.Value, *nfFrame) {
 		}
 	}
 	return nil, nil
+}
+
+// c18FieldPath renders x.f1.f2 with the variable x replaced by the value it
+// holds, when x is a (captured) local that is assigned once; "" otherwise.
+func c18FieldPath(fa *ssa.FieldAddr, fr *nfFrame) string {
+	var names []string
+	var base ssa.Value = fa
+	for {
+		a, ok := base.(*ssa.FieldAddr)
+		if !ok {
+			break
+		}
+		if fv := eng.FieldVar(a); fv != nil {
+			names = append([]string{fv.Name()}, names...)
+		} else {
+			return ""
+		}
+		base = a.X
+	}
+	rb, _ := c18Val(base, fr)
+	if rb == nil || rb == base {
+		return ""
+	}
+	return eng.Expr(rb) + "." + strings.Join(names, ".")
 }
